@@ -48,6 +48,7 @@ const (
 	FamHuge       // > 65535 documents: document numbers span several roaring containers
 	FamMid        // 1..28 documents focused on one posting list (multi-chunk under fixed sizes), plus unique terms
 	FamSparse     // 4096..66000 mostly empty documents under chunk sizes 1..16: chunk tables with thousands of entries
+	FamGiant      // 18..40 documents with 0.5-1 MiB incompressible stored values: data section > 16 MiB
 	FamAligned    // a small batch padded so that the persisted data section is an exact multiple of 256 / 4096 / 32768 / 65536 bytes
 	FamDVGaps     // >1024 documents, 2..4 doc-value fields each present in a few ranges only
 	FamCounts     // statistics at their varint width boundaries: 127/128/16383/16384 documents carrying a field, total frequencies up to 2^61
@@ -238,6 +239,9 @@ func GenLeaf(t *rapid.T, ctx *Ctx, sc *Scenario, cfg CaseCfg, label string) (*Se
 	case FamMid:
 		b = genPostingBatch(t, sc)
 		desc = "posting-batch " + b.String()
+	case FamGiant:
+		b = GenBatchGiant(t, sc)
+		desc = fmt.Sprintf("giant{%d docs, %d stored bytes each}", len(b), len(b[0].Fields[1].Value))
 	case FamAligned:
 		b = GenBatch(t, sc, 4)
 		desc = b.String()
@@ -255,6 +259,9 @@ func GenLeaf(t *rapid.T, ctx *Ctx, sc *Scenario, cfg CaseCfg, label string) (*Se
 	mode := rapid.SampledFrom(modes).Draw(t, label+":mode")
 	if cfg.Family != FamSparse && rapid.IntRange(0, 5).Draw(t, label+":anyMode") == 0 {
 		mode = uint32(rapid.IntRange(1, 1024).Draw(t, label+":modeValue")) // any fixed chunk size
+	}
+	if cfg.Family == FamSparse && len(b) >= 131072 && rapid.IntRange(0, 2).Draw(t, label+":chunkNumbersBeyond16Bits") > 0 {
+		mode = 2 // chunk numbers of 65536 and more, each chunk holding up to two postings
 	}
 	if !HooksOn {
 		mode = 1025
@@ -295,7 +302,7 @@ func GenLeaf(t *rapid.T, ctx *Ctx, sc *Scenario, cfg CaseCfg, label string) (*Se
 			return nil, err
 		}
 	}
-	if cfg.Family != FamWide && cfg.Family != FamHuge && cfg.Family != FamCounts && cfg.Family != FamSparse && cfg.Family != FamDVGaps {
+	if cfg.Family != FamWide && cfg.Family != FamHuge && cfg.Family != FamCounts && cfg.Family != FamSparse && cfg.Family != FamDVGaps && cfg.Family != FamGiant {
 		Prelude(t, c, sc, label)
 	}
 	return c, nil
@@ -457,6 +464,29 @@ func GenMerge(t *rapid.T, ctx *Ctx, sc *Scenario, cfg CaseCfg, depth int, label 
 		if i > 0 && cfg.Family != FamHuge && rapid.IntRange(0, 7).Draw(t, fmt.Sprintf("%s.%d:sameAgain", label, i)) == 0 {
 			// the very same segment object a second time in one input list (with its own deletions)
 			ins[i] = ins[rapid.IntRange(0, i-1).Draw(t, fmt.Sprintf("%s.%d:sameAs", label, i))]
+		} else if i > 0 && (cfg.Family == FamSmall || cfg.Family == FamMid) && rapid.IntRange(0, 7).Draw(t, fmt.Sprintf("%s.%d:mirror", label, i)) == 0 {
+			// a segment with the same byte layout as an earlier input but other content: the earlier input's
+			// documents in reversed order, built with the same chunk mode (every section at the same offset)
+			src := ins[rapid.IntRange(0, i-1).Draw(t, fmt.Sprintf("%s.%d:mirrorOf", label, i))]
+			rev := make(Batch, len(src.Docs))
+			for d := range src.Docs {
+				rev[len(rev)-1-d] = src.Docs[d]
+			}
+			if !contractValid(rev) {
+				rev = Batch{}
+			}
+			seg, err := Build(rev, sc.Norm, src.Mode)
+			if err != nil {
+				return nil, fmt.Errorf("building mirrored input: %v", err)
+			}
+			ins[i] = &SegCase{Seg: seg, Exp: Expect(rev, sc.Norm.F), Docs: rev, Mode: src.Mode, Desc: fmt.Sprintf("built(mode=%d){reversed documents of an earlier input: %s}", src.Mode, rev.String())}
+			batchLabels(rev, ins[i])
+			ins[i].label("mirrored-input")
+			if rapid.Bool().Draw(t, fmt.Sprintf("%s.%d:mirrorLoaded", label, i)) {
+				if err := ins[i].reload(ctx, holdMem); err != nil {
+					return nil, err
+				}
+			}
 		} else {
 			ins[i], err = GenCase(t, ctx, sc, cfg, depth-1, fmt.Sprintf("%s.%d", label, i))
 			if err != nil {
@@ -488,7 +518,7 @@ func GenMerge(t *rapid.T, ctx *Ctx, sc *Scenario, cfg CaseCfg, depth int, label 
 		return nil, err
 	}
 	mergeLabels(c, ins, drops)
-	if cfg.Family != FamWide && cfg.Family != FamHuge && cfg.Family != FamCounts && cfg.Family != FamSparse && cfg.Family != FamDVGaps {
+	if cfg.Family != FamWide && cfg.Family != FamHuge && cfg.Family != FamCounts && cfg.Family != FamSparse && cfg.Family != FamDVGaps && cfg.Family != FamGiant {
 		Prelude(t, c, sc, label)
 	}
 	return c, nil
